@@ -21,6 +21,9 @@
 (*   ctr     image counter of the reference allocator (-1: unknown, the      *)
 (*           judge then allocates synthetic fresh names)                     *)
 (*   ninfo   number of ImageInfo handles returned so far (capped)            *)
+(*   loose   tokens whose media part nothing obliges the library to keep:    *)
+(*           pictures the caller removed, unreferenced media of a foreign    *)
+(*           package                                                         *)
 (* Image tokens are names of entries of the table Images below; the token    *)
 (* identifies the exact bytes. An operation is a record [op |-> name, ...].  *)
 (***************************************************************************)
@@ -84,7 +87,7 @@ OldEl(e) == IF e.k = "tbl" THEN [e EXCEPT !.cells = [c \in 1..Len(e.cells) |-> O
 OldBody(b) == [i \in 1..Len(b) |-> OldEl(b[i])]
 
 StylesRel == [id |-> "rId1", kind |-> "styles", tgt |-> "word/styles.xml"]
-InitSt == [origin |-> "new", body |-> <<>>, media |-> {}, rels |-> <<StylesRel>>, ctr |-> 0, ninfo |-> 0]
+InitSt == [origin |-> "new", body |-> <<>>, media |-> {}, rels |-> <<StylesRel>>, ctr |-> 0, ninfo |-> 0, loose |-> {}]
 
 \* ---- allocation (the implementation's free choices; only freshness matters) ----
 RelIds(s) == {s.rels[i].id : i \in 1..Len(s.rels)}
@@ -238,15 +241,17 @@ Apply0(s, op) ==
          [s EXCEPT !.body[TablePos(s, op.tbl)].cells[CellIdx(op)] = Append(@, Ph(op.slot, op.lay))]
     [] op.op = "Render" -> IF op.keep THEN s ELSE RenderDoc(s, op.data)
     [] op.op = "RenderString" -> [RenderLines(InitSt, op.slots, 1, op.data) EXCEPT !.origin = "rstring"]
-    [] op.op = "RemovePic" -> [s EXCEPT !.body[NthBodyPic(s, op.i)] = Txt]   \* the media part and the relationship stay
+    [] op.op = "RemovePic" ->      \* (the reference machine keeps the media part and the relationship)
+         [s EXCEPT !.body[NthBodyPic(s, op.i)] = Txt, !.loose = @ \cup {Resolve(s, s.body[NthBodyPic(s, op.i)].embed)}]
     [] op.op = "Other" -> AddRel(s, RelKindOf(op.what))
     [] op.op = "Save" -> s
     [] op.op = "Reopen" -> [s EXCEPT !.origin = "reopen"]
     [] op.op = "OpenForeign" ->
-         [origin |-> "foreign", body |-> op.shape.body,
-          media |-> {[name |-> op.shape.media[i].name, tok |-> op.shape.media[i].img.t] : i \in 1..Len(op.shape.media)},
-          rels |-> [i \in 1..Len(op.shape.rels) |-> [id |-> op.shape.rels[i].id, kind |-> op.shape.rels[i].kind, tgt |-> op.shape.rels[i].tgt]],
-          ctr |-> op.shape.ctr, ninfo |-> s.ninfo]
+         LET f == [origin |-> "foreign", body |-> op.shape.body,
+                   media |-> {[name |-> op.shape.media[i].name, tok |-> op.shape.media[i].img.t] : i \in 1..Len(op.shape.media)},
+                   rels |-> [i \in 1..Len(op.shape.rels) |-> [id |-> op.shape.rels[i].id, kind |-> op.shape.rels[i].kind, tgt |-> op.shape.rels[i].tgt]],
+                   ctr |-> op.shape.ctr, ninfo |-> s.ninfo, loose |-> {}]
+         IN [f EXCEPT !.loose = {m.tok : m \in f.media} \ {View(f)[i].tok : i \in 1..Len(View(f))}]
     [] OTHER -> s      \* InfoOps: the handle's configuration changes, the document does not
 Apply(s, op) == IF Guard(s, op) THEN Apply0([s EXCEPT !.body = OldBody(@)], op) ELSE [s EXCEPT !.body = OldBody(@)]
 
@@ -321,7 +326,7 @@ Viol_View(E, O) ==
   ELSE UNION {DiffEntry(E[i], O[i]) : i \in 1..Len(E)}
 \* every image handed over is stored, unmodified, in some media part
 Viol_Media(exp, obs) ==
-  {<<"media-lost", "token", "">> : t \in {m.tok : m \in exp.media} \ {m.tok : m \in obs.media}}
+  {<<"media-lost", "token", "">> : t \in ({m.tok : m \in exp.media} \ exp.loose) \ {m.tok : m \in obs.media}}
 \* (a picture that is missing altogether is reported once, as a missing picture)
 Viol_C10(exp, obs) ==
   Viol_View(View(exp), View(obs))
